@@ -393,6 +393,39 @@ pub fn run(ctx: &Ctx, st: &mut Stats, id: &str) {
             st.sample(|| json!(c));
         }
     }
+    if id == "C03" {
+        // existence-boundary seeking: bisect the latitude (down to adjacent f64 values) between a site where the
+        // twilight exists and one where it does not; the last site where it exists must still satisfy the property
+        let nb = ctx.quota(3_000, 120_000);
+        let mut rb = Rng::new(ctx.seed, stream + 70, ctx.shard);
+        for _ in 0..nb {
+            let mut c = gen_case(&mut rb, id);
+            c.weather = None;
+            c.dangle = None;
+            c.site.gmt = X((c.site.lon.0 / 15.0).round().clamp(-12.0, 12.0));
+            let pr = *rb.pick(&[Prayer::Fajr, Prayer::Isha, Prayer::Imsaak]);
+            let p = c.p.build();
+            let date = s2d(&c.date);
+            let site = c.site;
+            let exists = |st: &mut Stats, la: f64| -> bool {
+                let mut s2 = site;
+                s2.lat = X(la);
+                call(st, &p, s2.loc(), date, None).map(|r| r[&pr].is_ok()).unwrap_or(false)
+            };
+            // a latitude of the same sign towards the pole where the twilight is missing (if any within 60 deg)
+            let la0 = rb.range(-40.0, 40.0);
+            let la1 = if rb.chance(0.5) { 60.0 } else { -60.0 };
+            if !exists(st, la0) || exists(st, la1) {
+                st.count("boundary_seeks.no_transition_between_endpoints");
+                continue;
+            }
+            let (a, _b) = super::bisect(la0, la1, |la| exists(st, la));
+            c.site.lat = X(a);
+            check(ctx, st, &c, id);
+            st.count(&format!("boundary_seeks.{pr:?}"));
+            st.nontrivial_key(hash64(&format!("b{:?}", c)));
+        }
+    }
     st.extra.insert(
         "rule".into(),
         json!("exhaustive date sweeps 1600..2399 for a few sites + seeded random + fixed corpus; a case is non-trivial when the judged event exists that day (oracle evaluated on at least one reported time); distinct by 64-bit hash of the full input"),
